@@ -66,6 +66,7 @@ type World struct {
 	lastGCBusy       bool
 	sessions         map[int]*MSess
 	props            []string // properties this run's generic oracles speak for in addition to their own
+	lastLoc          string   // Location of the latest 202 for an upload: the session adversarial requests are aimed at
 }
 
 func newWorld(x *X, k Knobs, root, name string) *World {
@@ -275,6 +276,9 @@ func (w *World) do(rs reqSpec) *Resp {
 		t.Tag, t.Repos = "", nil
 	}
 	resp.Code, resp.H, resp.Body = rec.Code, rec.Result().Header, rec.Body.Bytes()
+	if loc := resp.H.Get("Location"); resp.Code == 202 && strings.Contains(loc, "/blobs/uploads/") {
+		w.lastLoc = loc
+	}
 	if traceOn {
 		fmt.Printf("TRACE %s t=%s %s %s?%s -> %d %s fs[%d..%d] %s\n", w.name, time.Since(w.x.start), rs.method, rs.path, rs.query, resp.Code, trunc(resp.Body, 100), resp.fsFrom, resp.fsTo, resp.H.Get("Location"))
 	}
